@@ -19,6 +19,13 @@ every model built from those defaults) is therefore listed by the generator as a
 `shared:<pkg.Var>-><field>` whose rows hold none of the owners' mutexes: the owners' mutexes are
 different mutexes.  Such a write row conflicts with itself and is unordered.
 
+Two more kinds of location are listed the same way.  `bus-shared:<type>.<field>`: the fields of an
+event object whose pointer is sent on the bus — all listeners receive the same pointer, so a write by
+the library after the send (an in-place filter) holds no lock and is unordered with every other
+listener's access; accesses through a private copy or a freshly created event are constructor-phase.
+`local:<func>.<var>`: a local variable that a `go func(){…}` literal shares with its spawner; accesses
+before the spawn or after a join are constructor-phase, a literal started once carries a role.
+
 The table (one row per syntactic access to a field of a concurrently usable type, with the locks
 held at that point) is regenerated from /repo's sources on every run by `harness/cmd/c11 -facts`
 (`ScVerif/Generated/C11Facts.lean`).  Names are numbered by the generator (`fieldNames`, …) so that the
